@@ -153,3 +153,22 @@ class PolyLower(BVLower):
             self.invars[fe] = None
             self.lines.append('(declare-const %s Int)' % fe)
         return fe
+
+
+def val_term(low, ids):
+    """SMT Int term of the field value whose four Montgomery limbs are the nodes `ids`"""
+    r = low.run
+    ns = [r.nodes[i] for i in ids]
+    if all(n['op'] == 'limb' and n.get('i', 0) == j and n.get('k') == len(ids) for j, n in enumerate(ns)) and len({n['a'][0] for n in ns}) == 1:
+        b = ns[0]['a'][0]
+        low.emit([b])
+        return low.name(b)
+    if all(n['op'] == 'var' for n in ns):
+        names = [n['n'] for n in ns]
+        pfx = names[0][:-1]
+        if names == [pfx + str(j) for j in range(len(ids))]:
+            return low.fe(pfx)
+    if all(n['op'] == 'const' for n in ns):
+        mont = unlimbs([int(n['v']) for n in ns])
+        return low.const(mont * pow(R, -1, low.m) % low.m)
+    raise ValueError('limbs %s do not form one abstract field value' % ids)
